@@ -6,9 +6,11 @@
    fields / map keys with equal values" (modelled, not verified; the correspondence runs the real
    one on every case).  The tolerance theorems are about the model of Go's arithmetic in
    Cmp/Tolerance.v (int64 wrap-around, AsTime / AsDuration, exact rationals for finite floats). *)
-From Coq Require Import QArith.
-From SC Require Import Base.Prelude Cmp.Cmp Cmp.Logic Cmp.Tolerance Cmp.Spec Cmp.LogicProofs Cmp.ToleranceProofs
-  Cmp.CmpProofs Cmp.C16Judge Cmp.JudgeProofs Resource.Impl Resource.Pull Resource.PullProofs.
+From Coq Require Import QArith Reals.
+From Flocq Require Import Core.Core IEEE754.BinarySingleNaN.
+From SC Require Import Base.Prelude Cmp.Cmp Cmp.Logic Cmp.Tolerance Cmp.FloatB64 Cmp.GoTime Cmp.Spec Cmp.LogicProofs Cmp.ToleranceProofs Cmp.FloatB64Proofs
+  Cmp.GoTimeProofs Cmp.CmpProofs Cmp.CmpTableProofs Cmp.SpecSymProofs Cmp.CollEquiv Cmp.CollEquivProofs Cmp.C16Judge Cmp.TreeProofs Cmp.JudgeProofs Cmp.CollJudgeProofs Cmp.MaskJudgeProofs
+  Resource.Impl Resource.Pull Resource.PullProofs.
 Open Scope Z_scope.
 
 (* ---- the default comparer is proto.Equal, modulo change_time in Change messages ---- *)
@@ -36,6 +38,13 @@ Theorem C16_change_time_presence_v0_refuted :
   proto_equal (option_map strip (Some (change_msg true))) (option_map strip (Some (change_msg false))) = true /\
   cmp_equal [] (Some (change_msg true)) (Some (change_msg false)) = true.
 Proof. exact change_time_presence_v0_refuted. Qed.
+
+(* the decision structure of pkg/cmp, read from the SOURCE on every run (Gen/CmpTable.v), is the one the
+   model and the tree conversion assume: every protoreflect kind compared through the accessor of its
+   constructor, none falling to the default, hook before the switch, order of equalField, the literals
+   of the exception and of the tolerance comparers' kind / full-name tests *)
+Theorem C16_source_table_matches_model : cmp_table_ok = true.
+Proof. exact cmp_table_matches_model. Qed.
 
 (* ---- And / Or ---- *)
 Theorem C16_and_is_conj : forall (eqs : list mcmp) x y,
@@ -83,26 +92,105 @@ Theorem C16_float_special_values_v0_refuted :
   fl_approx_gen true (1#2) 0 (FInf false) (FInf true) = true.
 Proof. exact float_v0_refuted. Qed.
 
-(* ---- TimeValueWithin ---- *)
-Theorem C16_time_reflexive : forall d x, 0 <= d ->
-  says (time_within d) x x = true \/ answers (time_within d) x x = false.
-Proof. exact time_reflexive. Qed.
+(* ---- FloatValueApprox on ACTUAL float64 arithmetic (Flocq binary64, round to nearest even; Cmp/FloatB64.v).
+   These theorems (and the ones below that go through the model of a configuration, model_v) rest on
+   the four standard-library axioms of the real numbers that Flocq inherits. ---- *)
+(* every float64: NaN, +-Inf, +-0, subnormals; every fraction and margin, NaN and negative included *)
+Theorem C16_float_b64_reflexive : forall fr mg x : binary64, b64_approx fr mg x x = true.
+Proof. exact b64_approx_refl. Qed.
 
-Theorem C16_time_symmetric : forall d x y, time_within d x y = time_within d y x.
-Proof. exact time_symmetric. Qed.
+(* symmetric on every pair, rounding and overflow of x-y included *)
+Theorem C16_float_b64_symmetric : forall fr mg x y : binary64, b64_approx fr mg x y = b64_approx fr mg y x.
+Proof. exact b64_approx_sym. Qed.
 
+(* accepts exactly the pairs within the stated tolerance, over the reals, whenever neither x-y nor
+   fraction*min(|x|,|y|) rounds or overflows *)
+Theorem C16_float_b64_accepts_iff_within_real : forall fr mg x y : binary64,
+  is_finite fr = true -> is_finite mg = true -> is_finite x = true -> is_finite y = true ->
+  b64_exact (B2R x - B2R y)%R ->
+  b64_exact (B2R fr * Rmin (Rabs (B2R x)) (Rabs (B2R y)))%R ->
+  b64_approx fr mg x y =
+  Req_bool (B2R x) (B2R y)
+  || Rle_bool (Rabs (B2R x - B2R y)) (Rmax (B2R mg) (B2R fr * Rmin (Rabs (B2R x)) (Rabs (B2R y)))).
+Proof. exact b64_approx_real. Qed.
+
+(* on the judge's guard (small dyadic values, fraction, margin) no operation rounds: the binary64
+   comparer is the exact-rational one, hence the ideal tolerance *)
+Theorem C16_float_b64_is_rational_on_guard : forall fr mg a b,
+  small_dyadic fr = true -> small_dyadic mg = true -> fl_small a = true -> fl_small b = true ->
+  fl_approx_b64 fr mg a b = fl_approx_gen false fr mg a b.
+Proof. exact b64_approx_exact. Qed.
+
+Theorem C16_float_b64_accepts_iff_within : forall fr mg a b,
+  small_dyadic fr = true -> small_dyadic mg = true -> fl_small a = true -> fl_small b = true ->
+  Qle_bool 0 mg = true -> fl_approx_b64 fr mg a b = ideal_float fr mg a b.
+Proof. exact b64_accepts_iff_within. Qed.
+
+(* the conversion of the harness's exact rationals to binary64 loses nothing but the sign of zero,
+   which the comparer never sees *)
+Theorem C16_float_b64_conversion_exact : forall fr mg x y : binary64,
+  b64_approx fr mg (b64_of_fl (fl_of_b64 x)) (b64_of_fl (fl_of_b64 y)) = b64_approx fr mg x y.
+Proof. exact b64_approx_via_fl. Qed.
+
+(* outside the guard the exact-rational model is NOT the code: 2^53 against -1 under margin 2^53 (x-y
+   rounds to even), one subnormal against three under fraction 3/2 (the product rounds up) *)
+Theorem C16_float_rational_model_outside_guard_refuted :
+  (fl_approx_b64 0 9007199254740992 (FFin 9007199254740992) (FFin (-1)) = true
+   /\ fl_approx_gen false 0 9007199254740992 (FFin 9007199254740992) (FFin (-1)) = false)
+  /\ (let u := Q_of_finite false 1 (-1074) in
+      fl_approx_b64 (3 # 2) 0 (FFin u) (FFin (3 * u)) = true
+      /\ fl_approx_gen false (3 # 2) 0 (FFin u) (FFin (3 * u)) = false).
+Proof. exact b64_differs_from_rational_when_rounding. Qed.
+
+(* ---- TimeValueWithin (time.Unix, Before, Sub, Add, Equal as Go computes them: Cmp/GoTime.v) ---- *)
+Theorem C16_time_reflexive : forall d x, 0 <= d <= max_dur ->
+  says (time_within_fixed d) x x = true \/ answers (time_within_fixed d) x x = false.
+Proof. exact time_fixed_reflexive. Qed.
+
+Theorem C16_time_symmetric : forall d x y, time_within_fixed d x y = time_within_fixed d y x.
+Proof. exact time_fixed_symmetric. Qed.
+
+(* every tolerance a time.Duration can express, math.MaxInt64 included *)
 Theorem C16_time_accepts_iff_within : forall d tx ux fx ty uy fy,
-  0 <= d < max_dur -> tx = ts_full -> ty = ts_full ->
+  0 <= d <= max_dur -> tx = ts_full -> ty = ts_full ->
   Z.abs (get_int "seconds" fx) <= 1152921504606846976 -> -2147483648 <= get_int "nanos" fx <= 2147483647 ->
   Z.abs (get_int "seconds" fy) <= 1152921504606846976 -> -2147483648 <= get_int "nanos" fy <= 2147483647 ->
-  time_within d (CM tx true fx ux) (CM ty true fy uy) =
+  time_within_fixed d (CM tx true fx ux) (CM ty true fy uy) =
   (Z.abs (total_nanos fx - total_nanos fy) <=? d, true).
-Proof. exact time_accepts_iff_within. Qed.
+Proof. exact time_fixed_accepts_iff_within. Qed.
 
 Theorem C16_time_only_own_kind : forall d x y,
-  answers (time_within d) x y = true ->
+  answers (time_within_fixed d) x y = true ->
   exists tx vx fx ux ty vy fy uy, x = CM tx vx fx ux /\ y = CM ty vy fy uy /\ (tx = ts_full \/ ty = ts_full).
-Proof. exact time_only_own_kind. Qed.
+Proof. exact time_fixed_only_own_kind. Qed.
+
+(* Time.Sub as Go computes it (wrapping int64 product, u.Add(d).Equal(t), addSec saturation) is "the
+   exact difference if it fits a Duration, else saturated", on the whole int64 range of seconds *)
+Theorem C16_go_sub_is_saturating_difference : forall t u, wf_time t -> wf_time u ->
+  go_sub t u = (if in64 (time_diff t u) then time_diff t u else if time_before t u then min_dur else max_dur).
+Proof. intros t u Wt Wu. rewrite go_sub_is_time_sub by assumption. reflexivity. Qed.
+
+(* the kernel before /repo 4b183a5 (Sub(...) <= d in both orders): exact for d < MaxInt64 on ALL
+   pairs of times, in particular "false" in both argument orders for times more than 292 years apart *)
+Theorem C16_time_v0_exact_below_max : forall d xt yt, wf_time xt -> wf_time yt ->
+  0 <= d < max_dur -> time_close_go d xt yt = (Z.abs (time_diff xt yt) <=? d).
+Proof. exact time_close_go_exact. Qed.
+
+Theorem C16_time_v0_far_apart_rejected_both_orders : forall d xt yt, wf_time xt -> wf_time yt ->
+  0 <= d < max_dur -> Z.abs (time_diff xt yt) > max_dur ->
+  time_close_go d xt yt = false /\ time_close_go d yt xt = false.
+Proof. exact time_kernel_far_apart. Qed.
+
+(* ... but with d = math.MaxInt64 it accepted every pair of Timestamps (fixed in 4b183a5) *)
+Theorem C16_time_max_dur_v0_refuted :
+  (forall tx ux fx ty uy fy, tx = ts_full -> ty = ts_full ->
+     time_within_go max_dur (CM tx true fx ux) (CM ty true fy uy) = (true, true)) /\
+  time_within_go max_dur (ts_msg 0 0) (ts_msg 10000000000 0) = (true, true) /\
+  time_within_fixed max_dur (ts_msg 0 0) (ts_msg 10000000000 0) = (false, true) /\
+  time_within_fixed max_dur (ts_msg 10000000000 0) (ts_msg 0 0) = (false, true).
+Proof.
+  split; [exact time_within_go_max_dur_accepts_all|]. repeat split; vm_compute; reflexivity.
+Qed.
 
 (* ---- DurationValueWithin ---- *)
 Theorem C16_duration_reflexive : forall d x, 0 <= d ->
@@ -151,8 +239,50 @@ Theorem C16_durp_only_own_kind : forall p x y,
   exists tx vx fx ux ty vy fy uy, x = CM tx vx fx ux /\ y = CM ty vy fy uy /\ (tx = dur_full \/ ty = dur_full).
 Proof. exact durp_only_own_kind. Qed.
 
-(* ---- the judged clauses hold of the model ---- *)
-Theorem C16_judge_sound_partial : forall is_or es x y,
+(* ---- symmetry and reflexivity at the level of WHOLE messages ---- *)
+(* the reference equality is symmetric / reflexive on well-formed trees whenever its leaf relation is
+   (leaves answer on scalars and messages only) *)
+Theorem C16_reference_symmetric : forall ign (L : cval -> cval -> option bool),
+  (forall a b, L a b = L b a) -> (forall a b, is_singular a && is_singular b = false -> L a b = None) ->
+  forall x y, opt_wf x = true -> opt_wf y = true -> spec_top ign L x y = spec_top ign L y x.
+Proof. intros. apply spec_top_sym; assumption. Qed.
+
+Theorem C16_reference_reflexive : forall ign (L : cval -> cval -> option bool),
+  (forall a, L a a = Some true \/ L a a = None) ->
+  forall x, opt_wf x = true -> spec_top ign L x x = true.
+Proof. intros. apply spec_top_refl; assumption. Qed.
+
+(* cmp.Equal(FloatValueApprox.., TimeValueWithin.., DurationValueWithin..) and cmp.Equal(cmp.ValueOr(..))
+   are symmetric on ALL pairs of possibly-nil messages (no guard on the values: NaN, infinities,
+   saturating Durations, typed nil, different types, unknown fields), and reflexive on every message
+   for non-negative tolerances *)
+Theorem C16_equal_symmetric : forall e x y, has_durp e = false -> opt_wf x = true -> opt_wf y = true ->
+  model_e e x y = model_e e y x.
+Proof. exact model_symmetric. Qed.
+
+Theorem C16_equal_reflexive : forall e x, ecfg_guard e = true -> has_durp e = false -> opt_wf x = true ->
+  model_e e x x = true.
+Proof. exact model_reflexive. Qed.
+
+(* ---- the judge is sound with respect to the model ---- *)
+(* whenever the observation is the model's ([agrees]), the guard holds and no known-finding class
+   applies ([in_scope_all]: no DurationValueWithinP, no saturating Duration under DurationValueWithin;
+   pair, Value-stream, one-item-collection and whole-collection cases with distinct ids; not the
+   read-mask cases), the property predicate evaluated on the OBSERVATION holds: symmetric, reflexive,
+   equal to the reference equality with ideal leaves, equal to the real proto.Equal modulo
+   change_time, And/Or = fold, delivered iff not ideally equivalent to what the subscriber holds.
+   So on in-scope cases a non-zero verdict can only come from the code differing from the model. *)
+Theorem C16_judge_sound : forall c,
+  agrees c = true -> C16_guard c = true -> in_scope_all c = true -> C16_ok c = true.
+Proof. exact judge_sound_all. Qed.
+
+(* read-mask streams (Value.Pull WithReadPaths): the same, on the FILTERED values *)
+Theorem C16_judge_sound_masked_stream : forall paths e seed writes emitted,
+  let c := KStreamM paths e seed writes emitted in
+  agrees_core c = true -> mask_stream_scope paths e seed writes = true -> ok_core c = true.
+Proof. exact mask_stream_sound. Qed.
+
+Theorem C16_judge_sound_comb : forall is_or es x y,
   ok_obs x y (false, false)
          (OComb is_or es (map (fun e => four (model_e e) x y) es)
                 (four ((if is_or then msg_or else msg_and) (map model_e es)) x y)) = true.
@@ -191,18 +321,84 @@ Section Resource.
   Proof. intros. apply equivalence_delivery. Qed.
 End Resource.
 
-(* Collection.Pull compares the old and the new value of EACH change, not the new value with what the
-   subscriber holds: under a non-transitive tolerance the item drifts 0 -> 1 -> 2 -> 3 in steps of 1,
-   every step is suppressed, and the subscriber still holds 0 although 3 is not equivalent to 0 *)
-Theorem C16_collection_tolerance_drift_refuted :
+(* ---- Collection.Pull with an equivalence (model: Cmp/CollEquiv.v, the code since /repo 3a50d70) ---- *)
+Section Collection.
+  Variable M : Type.
+  Variable rmask : Type.
+  Variable r_filter : rmask -> M -> M.
+
+  (* for EVERY history of one evolving collection, every comparer, read mask and include filter: a
+     change is delivered exactly when its new value (as the reader sees it) is NOT equivalent to the
+     value the subscriber holds for that id; [w] is what the subscriber holds, [h] the goroutine's map *)
+  Theorem C16_collection_delivers_iff_not_equivalent_to_held :
+    forall cmp (ro : ropts M rmask) evs (h : heldmap M) (w cur : view M),
+    held_inv h w (seen r_filter ro cur) -> ev_chained_from cur evs ->
+    c_forward_held r_filter (Some cmp) ro h evs = ideal_filter cmp w (offered r_filter ro evs).
+  Proof. intros. eapply coll_pull_held_exact; eassumption. Qed.
+
+  (* ... where "holds" is the new value of the last change delivered for the id *)
+  Theorem C16_collection_held_is_last_delivered : forall cmp cs (w : view M) (c : cchange M),
+    ideal_filter cmp w (cs ++ [c]) =
+    ideal_filter cmp w cs ++
+    (if cmp (holds_after w (ideal_filter cmp w cs) (cc_id c)) (cc_new c) then [] else [c]).
+  Proof. intros. apply ideal_last_delivered. Qed.
+
+  (* after the seed loop the map is the seed as sent *)
+  Theorem C16_collection_seeded : forall cmp (ro : ropts M rmask) (sd : list (cchange M)) evs (cur : view M),
+    (forall k, holds_after (fun _ => None) sd k = None -> seen r_filter ro cur k = None) ->
+    ev_chained_from cur evs ->
+    c_forward_held r_filter (Some cmp) ro (held_of_seeds sd) evs =
+    ideal_filter cmp (holds_after (fun _ => None) sd) (offered r_filter ro evs).
+  Proof. intros. eapply coll_pull_held_seeded; eassumption. Qed.
+
+  (* WithUpdatesOnly: the subscriber is taken to hold the collection as it was at subscription *)
+  Theorem C16_collection_updates_only : forall cmp (ro : ropts M rmask) evs (cur : view M),
+    ev_chained_from cur evs ->
+    c_forward_held r_filter (Some cmp) ro [] evs = ideal_filter cmp (seen r_filter ro cur) (offered r_filter ro evs).
+  Proof. intros. apply coll_pull_held_updates_only. assumption. Qed.
+
+  (* without an equivalence the loop is the one of Resource/Pull.v *)
+  Theorem C16_collection_no_equivalence_unchanged : forall (ro : ropts M rmask) evs h,
+    c_forward_held r_filter None ro h evs = c_forward_gen r_filter None false false ro evs.
+  Proof. intros. apply c_forward_held_none. Qed.
+
+  (* the code before the repair (old against new of each change) is the same function whenever the
+     comparer is an equivalence RELATION (WithNoDuplicates, cmp.Equal(), projections) *)
+  Theorem C16_collection_v0_right_for_equivalence_relations :
+    forall (cmp : option M -> option M -> bool),
+    (forall a, cmp a a = true) -> (forall a b, cmp a b = cmp b a) ->
+    (forall a b c, cmp a b = true -> cmp b c = true -> cmp a c = true) ->
+    forall (ro : ropts M rmask) evs (h : heldmap M) (w cur : view M),
+    held_inv h w (seen r_filter ro cur) -> (forall id, cmp (w id) (seen r_filter ro cur id) = true) ->
+    ev_chained_from cur evs ->
+    c_forward_gen r_filter (Some cmp) false false ro evs = c_forward_held r_filter (Some cmp) ro h evs.
+  Proof. intros. eapply c_forward_gen_is_held_for_equivalence_relations; eassumption. Qed.
+End Collection.
+
+(* ... and wrong for tolerances: the item drifts 0 -> 1 -> 2 -> 3 in steps of 1 under |a-b| <= 1, every
+   step is suppressed, and the subscriber still holds 0 although 3 is not equivalent to 0; the repaired
+   loop delivers 2 *)
+Theorem C16_collection_tolerance_drift_v0_refuted :
   ~ (forall (cmp : option Z -> option Z -> bool) (held : Z) (evs : list (cevent Z)),
        chained held evs ->
        c_forward_gen (fun (_ : unit) (m : Z) => m) (Some cmp) false false plain_ropts evs = [] ->
-       cmp (Some held) (Some (final held evs)) = true).
+       cmp (Some held) (Some (final held evs)) = true) /\
+  map (@cc_new Z) (c_forward_held (fun (_ : unit) (m : Z) => m) (Some within1) plain_ropts [("a"%string, Some 0)] drift_events)
+  = [Some 2].
 Proof.
+  split; [|vm_compute; reflexivity].
   intros H. destruct drift_witness as (C & F & N).
   specialize (H within1 0 drift_events C F). rewrite N in H. discriminate.
 Qed.
+
+(* ---- the whole-message acceptance clause, one theorem over message trees ---- *)
+(* for every pair of guarded possibly-nil message trees and every guarded configuration of
+   FloatValueApprox / TimeValueWithin / DurationValueWithin under Equal(...) or Equal(ValueOr(...)):
+   the verdict is the reference equality whose leaves are the tolerances in exact arithmetic *)
+Theorem C16_whole_message_is_ideal : forall e x y,
+  ecfg_guard e = true -> has_durp e = false -> tree_ok e x = true -> tree_ok e y = true ->
+  model_e e x y = ideal_e e x y.
+Proof. exact model_is_ideal. Qed.
 
 (* ---- non-vacuity ---- *)
 Definition nv_msg (d : Q) (nanos : Z) : cval :=
@@ -221,19 +417,36 @@ Proof. vm_compute. reflexivity. Qed.
 Example C16_nonvacuous_default :
   cmp_equal [] (Some (nv_msg (1#2) 5)) (Some (nv_msg (1#2) 5)) = true /\
   cmp_equal [] (Some (nv_msg (1#2) 5)) (Some (nv_msg (3#4) 7)) = false /\
-  cmp_equal [float_approx 0 (1#4); time_within 2] (Some (nv_msg (1#2) 5)) (Some (nv_msg (3#4) 7)) = true /\
-  cmp_equal [float_approx 0 (1#8); time_within 2] (Some (nv_msg (1#2) 5)) (Some (nv_msg (3#4) 7)) = false /\
-  cmp_equal [float_approx 0 (1#4); time_within 1] (Some (nv_msg (1#2) 5)) (Some (nv_msg (3#4) 7)) = false.
+  cmp_equal [float_approx 0 (1#4); time_within_fixed 2] (Some (nv_msg (1#2) 5)) (Some (nv_msg (3#4) 7)) = true /\
+  cmp_equal [float_approx 0 (1#8); time_within_fixed 2] (Some (nv_msg (1#2) 5)) (Some (nv_msg (3#4) 7)) = false /\
+  cmp_equal [float_approx 0 (1#4); time_within_fixed 1] (Some (nv_msg (1#2) 5)) (Some (nv_msg (3#4) 7)) = false.
 Proof. repeat split; vm_compute; reflexivity. Qed.
 Example C16_nonvacuous_stream :
   pull_model (EAnd [VFloat 0 (1#2)]) (Some (nv_msg 0 0)) [nv_msg (1#2) 0; nv_msg 1 0; nv_msg (3#2) 0] =
   [nv_msg 0 0; nv_msg 1 0].
 Proof. vm_compute. reflexivity. Qed.
 
+(* the hypotheses of C16_judge_sound hold of a non-trivial pair case and of a drifting stream *)
+Example C16_nonvacuous_judge_sound :
+  let c1 := KG true (KPair (Some (nv_msg (1#2) 5)) (Some (nv_msg (3#4) 7)) (false, false) (false, false)
+              [OEq (EAnd [VFloat 0 (1#4); VTime 2; VDur 0]) (true, true, true, true);
+               OEq (EOr [VFloat 0 0; VFloat 0 (1#8)]) (false, false, true, true)]) in
+  let c2 := KStream (EAnd [VFloat 0 (1#2)]) (Some (nv_msg 0 0)) [nv_msg (1#2) 0; nv_msg 1 0; nv_msg (3#2) 0]
+              [nv_msg 0 0; nv_msg 1 0] in
+  let c3 := KColl (EAnd [VFloat 0 (1#2)]) false (Some (1#1)) [("a"%string, nv_msg 1 0); ("b"%string, nv_msg (1#2) 0)]
+              [("a"%string, Some (nv_msg (5#4) 0)); ("a"%string, Some (nv_msg (3#2) 0)); ("a"%string, Some (nv_msg (7#4) 0));
+               ("b"%string, Some (nv_msg (3#2) 0)); ("a"%string, None)]
+              [("a"%string, None, Some (nv_msg 1 0)); ("a"%string, Some (nv_msg (3#2) 0), Some (nv_msg (7#4) 0));
+               ("b"%string, None, Some (nv_msg (3#2) 0)); ("a"%string, Some (nv_msg (7#4) 0), None)] in
+  (agrees c1 && C16_guard c1 && in_scope_all c1 && C16_ok c1) && (agrees c2 && C16_guard c2 && in_scope_all c2 && C16_ok c2)
+  && (agrees c3 && C16_guard c3 && in_scope_all c3 && C16_ok c3) = true.
+Proof. vm_compute. reflexivity. Qed.
+
 Print Assumptions C16_default_is_proto_equal.
 Print Assumptions C16_equal_with_comparers_is_reference.
 Print Assumptions C16_ignoring_is_clearing.
 Print Assumptions C16_change_time_presence_v0_refuted.
+Print Assumptions C16_source_table_matches_model.
 Print Assumptions C16_and_is_conj.
 Print Assumptions C16_or_is_disj.
 Print Assumptions C16_value_and_is_conj.
@@ -243,6 +456,13 @@ Print Assumptions C16_float_symmetric.
 Print Assumptions C16_float_accepts_iff_within.
 Print Assumptions C16_float_only_own_kind.
 Print Assumptions C16_float_special_values_v0_refuted.
+Print Assumptions C16_float_b64_reflexive.
+Print Assumptions C16_float_b64_symmetric.
+Print Assumptions C16_float_b64_accepts_iff_within_real.
+Print Assumptions C16_float_b64_is_rational_on_guard.
+Print Assumptions C16_float_b64_accepts_iff_within.
+Print Assumptions C16_float_b64_conversion_exact.
+Print Assumptions C16_float_rational_model_outside_guard_refuted.
 Print Assumptions C16_time_reflexive.
 Print Assumptions C16_time_symmetric.
 Print Assumptions C16_time_accepts_iff_within.
@@ -256,8 +476,25 @@ Print Assumptions C16_duration_wrap_v0_refuted.
 Print Assumptions C16_durp_symmetric_refuted.
 Print Assumptions C16_durp_reflexive_refuted.
 Print Assumptions C16_durp_only_own_kind.
-Print Assumptions C16_judge_sound_partial.
+Print Assumptions C16_judge_sound.
+Print Assumptions C16_judge_sound_masked_stream.
+Print Assumptions C16_judge_sound_comb.
+Print Assumptions C16_reference_symmetric.
+Print Assumptions C16_reference_reflexive.
+Print Assumptions C16_equal_symmetric.
+Print Assumptions C16_equal_reflexive.
 Print Assumptions C16_judge_sound_default.
 Print Assumptions C16_resource_value_stream_exact.
 Print Assumptions C16_resource_equivalence_suppresses_exactly_equivalent.
-Print Assumptions C16_collection_tolerance_drift_refuted.
+Print Assumptions C16_collection_tolerance_drift_v0_refuted.
+Print Assumptions C16_go_sub_is_saturating_difference.
+Print Assumptions C16_time_v0_exact_below_max.
+Print Assumptions C16_time_v0_far_apart_rejected_both_orders.
+Print Assumptions C16_time_max_dur_v0_refuted.
+Print Assumptions C16_collection_delivers_iff_not_equivalent_to_held.
+Print Assumptions C16_collection_held_is_last_delivered.
+Print Assumptions C16_collection_seeded.
+Print Assumptions C16_collection_updates_only.
+Print Assumptions C16_collection_no_equivalence_unchanged.
+Print Assumptions C16_collection_v0_right_for_equivalence_relations.
+Print Assumptions C16_whole_message_is_ideal.
